@@ -63,6 +63,9 @@ type xnode struct {
 	par  bool // rendered inside parentheses
 	pos  int
 	npos int // xCall: position of the name node (same token)
+	// xCall: the function name as WRITTEN when it differs from s in letter case (then in back
+	// quotes); s stays the lower-case name every classification of the harness looks at
+	spell string
 }
 
 func xb(op string, l, r *xnode) *xnode { return &xnode{k: xBin, op: op, kids: []*xnode{l, r}} }
@@ -166,7 +169,11 @@ func (n *xnode) render(w *xwriter, operand bool) {
 		n.pos = w.tok("!")
 		n.kids[0].render(w, true)
 	case xCall:
-		n.pos = w.tok(n.s)
+		nm := n.s
+		if n.spell != "" && strings.ToLower(n.spell) == n.s {
+			nm = "`" + n.spell + "`" // a function name keeps its spelling only inside back quotes
+		}
+		n.pos = w.tok(nm)
 		n.npos = n.pos
 		w.tok("(")
 		for i, a := range n.kids {
@@ -229,7 +236,11 @@ func (n *xnode) coq() string {
 	case xNot:
 		return fmt.Sprintf("(ENot %d %s)", n.pos, n.kids[0].coq())
 	case xCall:
-		return fmt.Sprintf("(ECall %d (EName %d %s) %s)", n.pos, n.npos, coqStr(n.s), kids())
+		nm := n.s
+		if n.spell != "" && strings.ToLower(n.spell) == n.s {
+			nm = n.spell
+		}
+		return fmt.Sprintf("(ECall %d (EName %d %s) %s)", n.pos, n.npos, coqStr(nm), kids())
 	case xName:
 		return fmt.Sprintf("(EName %d %s)", n.pos, coqStr(n.s))
 	case xNum:
@@ -661,7 +672,28 @@ func (s *xstmt) sites() map[int]bool {
 
 // c14Case renders, observes and emits one statement.  mode: 0 full verdict, 1 known-finding
 // shape (twin comparison only), 2 judged here only.
+// c14MixCase: every seventh statement writes its scalar function names with a capital letter in
+// back quotes (`Upper`(key)): function names are case-insensitive for the static checks AND for
+// the executor
+var c14MixCount int
+
+func c14MixCase(s *xstmt) {
+	c14MixCount++
+	if c14MixCount%7 != 0 {
+		return
+	}
+	for _, sl := range s.allSlots() {
+		n := sl.n
+		if n != nil && n.k == xCall && len(n.s) > 1 && n.s == strings.ToLower(n.s) {
+			if _, isAggr := kvql.GetAggrFunctionByName(n.s); !isAggr {
+				n.spell = strings.ToUpper(n.s[:1]) + n.s[1:]
+			}
+		}
+	}
+}
+
 func c14Case(e *emitter, s *xstmt, stream, fault, base string, mode int) (int, c14Obs, c14Replay) {
+	c14MixCase(s)
 	q, toks := s.render()
 	// sanity: the token offsets recorded while rendering are the lexer's
 	lx := kvql.NewLexer(q).Split()
